@@ -107,18 +107,22 @@ inductive GetOut
   | ok (tag val : Nat) (s : Bytes)
   deriving DecidableEq, Repr
 
-/-- entry `i` by index; string-valued tags resolve through the linked table (`none`: no table).
-    ELFIO's string accessor takes 32-bit offsets, hence `% 2^32` (tables are < 4 GiB). -/
+/-- what a reader reports for entry `e`: string-valued tags resolve through the linked table
+    (`none`: no table).  ELFIO's string accessor takes 32-bit offsets, hence `% 2^32`
+    (tables are < 4 GiB). -/
+def resolve (tbl : Option Bytes) (e : DynEntry) : GetOut :=
+  if stringValued e.tag then
+    match tbl.bind (fun t => strAt t (e.val % 4294967296)) with
+    | some s => .ok e.tag e.val s
+    | none => .nostr e.tag e.val
+  else .ok e.tag e.val []
+
+/-- entry `i` by index: valid below the reported count -/
 def dynGet (es : List DynEntry) (tbl : Option Bytes) (i : Nat) : GetOut :=
   if i < dynCount es then
     match es[i]? with
     | none => .invalid
-    | some e =>
-      if stringValued e.tag then
-        match tbl.bind (fun t => strAt t (e.val % 4294967296)) with
-        | some s => .ok e.tag e.val s
-        | none => .nostr e.tag e.val
-      else .ok e.tag e.val []
+    | some e => resolve tbl e
   else .invalid
 
 inductive DynOp
@@ -154,5 +158,27 @@ def dynRun (c : Cls) (st : DynSt) : List DynOp → DynSt × List DynOut
     let r := dynStep c st op
     let r2 := dynRun c r.1 ops
     (r2.1, r.2 :: r2.2)
+
+/-- the bytes a sequence of operations appends to the dynamic section: one gABI record per add -/
+def dynAppend (cfg : Cfg) : Option Bytes → List DynOp → Bytes
+  | _, [] => []
+  | tbl, .add t v :: r => encodeDyn cfg t (storedVal cfg.cls ⟨t, v⟩) ++ dynAppend cfg tbl r
+  | none, .addStr t _ :: r => encodeDyn cfg t (storedVal cfg.cls ⟨t, 0⟩) ++ dynAppend cfg none r
+  | some tb, .addStr t s :: r =>
+    encodeDyn cfg t (storedVal cfg.cls ⟨t, (strAdd tb s).2⟩) ++ dynAppend cfg (some (strAdd tb s).1) r
+  | tbl, .num :: r => dynAppend cfg tbl r
+  | tbl, .get _ :: r => dynAppend cfg tbl r
+
+/-- what the user added, in order -/
+inductive Added
+  | val (tag val : Nat)
+  | str (tag : Nat) (s : Bytes)
+  deriving Repr
+
+def addsOf : List DynOp → List Added
+  | [] => []
+  | .add t v :: r => .val t v :: addsOf r
+  | .addStr t s :: r => .str t s :: addsOf r
+  | _ :: r => addsOf r
 
 end ElfioVerif.Spec
